@@ -2,6 +2,7 @@ package grammar
 
 import (
 	"strconv"
+	"strings"
 
 	"verif/resp"
 	"verif/rng"
@@ -180,4 +181,43 @@ func Unknown(r *rng.R, token string) resp.Value {
 		args = append(args, "a"+strconv.Itoa(i))
 	}
 	return resp.Cmd(args...)
+}
+
+// Lookalike returns v's request with the command name written with letters that are NOT the ASCII letters of the
+// name but that Unicode case mapping folds onto them (U+017F long s -> S, U+0131 dotless i -> I). Redis compares
+// command names bytewise, ignoring the case of ASCII letters only: such a name is an unknown command.
+// ok=false if the name has no such letter.
+func Lookalike(r *rng.R, v *Vector) (resp.Value, bool) {
+	name := string(v.Argv[0])
+	var pos []int
+	for i, c := range strings.ToUpper(name) {
+		if c == 'S' || c == 'I' {
+			pos = append(pos, i)
+		}
+	}
+	if len(pos) == 0 {
+		return resp.Value{}, false
+	}
+	// disguise a non-empty subset of the positions
+	chosen := map[int]bool{pos[r.Intn(len(pos))]: true}
+	for _, p := range pos {
+		if r.Bool() {
+			chosen[p] = true
+		}
+	}
+	var b []byte
+	for i := 0; i < len(name); i++ {
+		c := name[i]
+		if chosen[i] {
+			if c == 's' || c == 'S' {
+				b = append(b, "\u017f"...)
+			} else {
+				b = append(b, "\u0131"...)
+			}
+			continue
+		}
+		b = append(b, c)
+	}
+	argv := append([][]byte{b}, v.Argv[1:]...)
+	return resp.CmdB(argv...), true
 }
